@@ -58,6 +58,21 @@ def lengths_for(info, tier, kind='raw'):
     return list(range(max(0, lo - 1), hi + 2))
 
 
+def short_lengths(info, tier, modname):
+    """very short inputs (0..4 characters) below the lengths taken from the corpus: numbers without their usual separator or
+    suffix (a bare agency prefix, a bare country code) live there.  quick: one of them per module, rotated by the seed"""
+    base = lengths_for(info, 'thorough')
+    if not base:
+        return []
+    cands = [n for n in range(0, 5) if n < base[0]]
+    if not cands:
+        return []
+    if tier == 'quick':
+        import zlib
+        return [cands[(zlib.crc32(modname.encode()) + seed()) % len(cands)]]
+    return cands
+
+
 # ---------------------------------------------------------------------------------------------
 # known findings
 
